@@ -4,8 +4,11 @@ CONSTANT MaxSteps = 6
 CONSTANT MaxLens = {1, 2, 3}
 CONSTANT MinLens = {0}
 CONSTANT Lims = {0, 1, 2}
+CONSTANT AOs = {TRUE, FALSE}
 CONSTANT MaxPending = 1
 CONSTANT Acts <- AllActs
+CONSTANT RecordReads = FALSE
+CONSTANT HitSteps = FALSE
 SPECIFICATION Spec
 VIEW view
 INVARIANT Asc
